@@ -136,7 +136,7 @@ func profLockstep(en *Env) {
 		vs := h.NewValues()
 		batches := s%3 != 2 // every third script is batch-free (byte comparison)
 		sc := genScript(en, nkeys, vs, steps, batches)
-		u := h.SimpleKeys(nkeys, 6+en.R.Intn(6))
+		u := h.PickKeys(en.R, nkeys, 6+en.R.Intn(6))
 		if s%3 == 0 {
 			// very long keys, all live, merged and restarted twice: the hint path must not depend on the index type
 			u = mergeKeys(en, nkeys, true)
